@@ -16,20 +16,106 @@ RULE = ("Seeded plans: train_mrq on a scripted environment with many short termi
         "successor observations and the later flags) is rewritten with other finite stored values. The plan is executed clean and faulted in "
         "the same process; the complete trace (every logged statistic incl. q loss / q mean / encoder, dynamics, reward, done losses, every "
         "action, final hashes) must be bit-identical. Reach probe: the faulted batch contained a window with a terminated step before its end. "
+        "A quarter of the plans are A2C plans (C07.c): real collect_trajectories + prepare_a2c_batch on 2-3 scripted environments, executed "
+        "twice with the reward script of ONE environment rewritten; advantages and returns of the other environments must be bit-identical. "
         "Distinct = distinct (configuration, faulted call kind, fired?).")
 REAL = ["train_mrq", "update_model_based_encoder / model_based_encoder_loss", "mrq_loss / update_critic_and_policy", "SubtrajectoryReplayBufferPER (dynamic subclass adds the fault)"]
 STUB = ["environment (SimEnv)"]
 ASSUMPTIONS = ["NARROW SLICE: GAE / reward-to-go / n-step recurrences against float64 references and independence between parallel environments are pure per-call clauses and are NOT decided",
                "masked contributions are exact zeros, so bitwise comparison of twins is legitimate"]
-TIERS = {"quick": {"runs": 32}, "thorough": {"runs": 800}}
-REQUIRED = ["post_terminal_windows_faulted", "post_terminal_irrelevant_critic", "post_terminal_irrelevant_encoder"]
+TIERS = {"quick": {"runs": 40}, "thorough": {"runs": 1000}}
+REQUIRED = ["other_environments_irrelevant", "post_terminal_windows_faulted", "post_terminal_irrelevant_critic", "post_terminal_irrelevant_encoder"]
 REQUIRED_QUICK = REQUIRED
 SHRINK_LISTS = [["env", "script"]]
+PLAN_LIMIT_S = 240
 SHRINK_INTS = []
 ENC_KEYS = ("encoder loss", "dynamics loss", "reward loss", "done loss", "reward mse")
 
 
+def make_a2c_plan(rng):
+    """C07.c: advantages / returns of one environment must not depend on the other environments batched alongside it.
+    Fault: another environment's reward script is rewritten (same episode structure, so every step stays aligned)."""
+    N = rng.choice([2, 3])
+    T = rng.choice([2, 3, 5, 8])
+    scripts = [trainplan.make_script(rng, T + 4, style=rng.choice(["short", "mixed", "long"])) for _ in range(N)]
+    return {"kind": "a2c_envs", "num_envs": N, "steps": T, "scripts": scripts, "victim": rng.randrange(N), "obs_dim": rng.choice([1, 3]),
+            "discrete": rng.choice([0, 3]), "gamma": rng.choice([0.9, 0.99, 1.0]), "gae_lambda": rng.choice([0.5, 0.95, 1.0]),
+            "seed": rng.randrange(2**31), "hidden": 4, "n_rollouts": rng.choice([1, 2])}
+
+
+def run_a2c(plan, perturb):
+    import gymnasium as gym
+    import jax
+    import jax.numpy as jnp
+    import numpy as np
+    from rl_blox.algorithm import a2c, reinforce
+
+    from rlsim.simenv import SimEnv
+
+    envs = []
+    for i in range(plan["num_envs"]):
+        script = json.loads(json.dumps(plan["scripts"][i]))
+        if perturb and i == plan["victim"]:
+            for ep in script:
+                ep["rew"] = [7.0, -5.0, 11.0]
+        envs.append(SimEnv(script, obs_dim=plan["obs_dim"], act_dim=1, discrete=plan["discrete"], space_seed=i, name=f"env{i}"))
+    vec = gym.vector.SyncVectorEnv([(lambda e=e: e) for e in envs], autoreset_mode=gym.vector.AutoresetMode.SAME_STEP)
+    if plan["discrete"]:
+        st = reinforce.create_policy_gradient_discrete_state(envs[0], policy_hidden_nodes=[plan["hidden"]], value_network_hidden_nodes=[plan["hidden"]], seed=plan["seed"])
+    else:
+        st = reinforce.create_policy_gradient_continuous_state(envs[0], policy_hidden_nodes=[plan["hidden"]], value_network_hidden_nodes=[plan["hidden"]], seed=plan["seed"])
+    key = jax.random.key(plan["seed"])
+    last_obs, _ = vec.reset(seed=plan["seed"])
+    last_obs = jnp.array(last_obs)
+    outs = []
+    for _ in range(plan["n_rollouts"]):
+        key, k = jax.random.split(key)
+        buf, last_obs, _, _ = a2c.collect_trajectories(vec, st.policy, k, last_obs, plan["steps"])
+        o, a, adv, ret = a2c.prepare_a2c_batch(buf, st.value_function, last_obs, vec.single_action_space, plan["gamma"], plan["gae_lambda"])
+        outs.append((np.asarray(adv).reshape(plan["steps"], plan["num_envs"]), np.asarray(ret).reshape(plan["steps"], plan["num_envs"])))
+    return outs, sum(e.n_steps for e in envs)
+
+
+def execute_a2c(plan):
+    import numpy as np
+
+    res = Result()
+    site = "prepare_a2c_batch"
+    try:
+        a, n1 = run_a2c(plan, False)
+        b, n2 = run_a2c(plan, True)
+    except Exception as e:
+        from rlsim.core import raised_by_code_under_test
+        if not raised_by_code_under_test(e):
+            raise
+        res.violate("C07.raise", site, f"{type(e).__name__}: {e}")
+        return res
+    res.simt("env_steps", n1 + n2)
+    v = plan["victim"]
+    changed_victim = False
+    for r, ((adv_a, ret_a), (adv_b, ret_b)) in enumerate(zip(a, b)):
+        res.log.add("rollout", r, adv_a, ret_a, adv_b, ret_b)
+        if adv_a[:, v].tobytes() != adv_b[:, v].tobytes():
+            changed_victim = True
+        for e in range(plan["num_envs"]):
+            if e == v:
+                continue
+            if adv_a[:, e].tobytes() != adv_b[:, e].tobytes() or ret_a[:, e].tobytes() != ret_b[:, e].tobytes():
+                t = int(np.argmax((adv_a[:, e] != adv_b[:, e]) | (ret_a[:, e] != ret_b[:, e])))
+                res.violate("C07.c", site, f"rollout {r}: rewriting the rewards of environment {v} changed the advantage/return of environment {e} at time {t}: {adv_a[t, e]!r} -> {adv_b[t, e]!r} (gamma={plan['gamma']}, lambda={plan['gae_lambda']}, {plan['num_envs']} envs x {plan['steps']} steps)")
+                return res
+    res.fault("other_environment_rewards_rewritten")
+    if changed_victim:
+        res.probe("other_environments_irrelevant")
+    res.signature = f"a2c|{plan['num_envs']}|{plan['steps']}|{plan['gamma']}|{plan['gae_lambda']}|{plan['discrete']}"
+    return res
+
+
 def make_plan(rng, tier, index):
+    if index % 4 == 3:
+        plan = make_a2c_plan(rng)
+        plan["check"] = PROPERTY
+        return plan
     plan = trainplan.base_plan(rng, PROPERTY, [], "mrq", T=rng.choice([24, 30]))
     plan["env"]["script"] = trainplan.make_script(rng, 40, style=rng.choice(["short", "short", "mixed"]))
     for e in plan["env"]["script"]:
@@ -56,6 +142,8 @@ def normalise(plan):
 
 
 def execute(plan):
+    if plan.get("kind") == "a2c_envs":
+        return execute_a2c(plan)
     res = Result()
     site = "train_mrq"
     clean = json.loads(json.dumps(plan))
